@@ -2077,10 +2077,13 @@ class _Duration(Duration):
     def from_timedelta(
         cls, delta: timedelta, *, _1_microsecond: timedelta = timedelta(microseconds=1)
     ) -> "_Duration":
-        total_ms = delta // _1_microsecond
-        seconds = int(total_ms / 1e6)
-        nanos = int((total_ms % 1e6) * 1e3)
-        return cls(seconds, nanos)
+        total_us = delta // _1_microsecond
+        # Integer arithmetic: floats lose microseconds beyond 2**53 us, and
+        # seconds and nanos of a Duration must have the same sign.
+        seconds, us = divmod(abs(total_us), 10**6)
+        if total_us < 0:
+            seconds, us = -seconds, -us
+        return cls(seconds, us * 1000)
 
     def to_timedelta(self) -> timedelta:
         return timedelta(seconds=self.seconds, microseconds=self.nanos / 1e3)
